@@ -60,6 +60,10 @@ SPINNERS = {
     "callback-inner-loop": ("[1].forEach(function(){ while(true){ hit(); } });", "loop"),
     "getter-loop": ("var og = { get p(){ while(true){ hit(); } } }; og.p;", "loop"),
     "valueof-loop": ("var ov = { valueOf: function(){ while(true){ hit(); } } }; ov + 1;", "loop"),
+    # many short-lived nested interpreters: no single one runs long enough to reach its own poll
+    "eval-tree": ("var dp = 0; var ft = function(){ hit(); if (dp < 30) { dp++; for (var i = 0; i < 4; i++) eval('ft()'); dp--; } }; ft();", "loop"),
+    "function-ctor-tree": ("var dq = 0; var fu = function(){ hit(); if (dq < 30) { dq++; for (var i = 0; i < 4; i++) new Function('fu()')(); dq--; } }; fu();", "loop"),
+    "eval-storm": ("for(;;){ hit(); eval('1 + 1'); }", "loop"),
     "callback-recursion": ("var cr = function(n){ if (n > 150) { while(true){ hit(); } } [1].forEach(function(){ cr(n + 1); }); }; cr(0);", "loop"),
 }
 
